@@ -10,6 +10,7 @@ Interleaved clients with other option vectors and restarts exercise the process-
 from __future__ import annotations
 
 import urllib.parse
+from fractions import Fraction
 
 from .. import clock as simclock
 from .. import optgen, worlds
@@ -221,8 +222,7 @@ class Oracle:
 
 def _check_error_time(self, doc, ctype: str, rep, args: dict, url: str) -> None:
     """verr/aerr/terr=<code>=<HH:MM:SS>Z on a live manifest: the number written into that media type's URL must
-    designate the segment of *that* Representation at the requested time (the segment containing the instant or
-    the one ending at it - the statement does not fix which)."""
+    designate the segment of *that* Representation which contains the requested instant."""
     sim = self.sim
     name = {"video": "verr", "audio": "aerr", "text": "terr"}.get(ctype)
     mq = dict(urllib.parse.parse_qsl(urllib.parse.urlsplit(doc.url).query))
@@ -240,20 +240,22 @@ def _check_error_time(self, doc, ctype: str, rep, args: dict, url: str) -> None:
         tm = day0 + (hh * 3600 + mm * 60 + ss) * 1_000_000
         if not (doc.fetched_us - int(m.tsbd * 1_000_000) < tm <= doc.fetched_us) or tm < m.ast_us:
             return          # outside the window (or at its very edge): not translated
-        x = (tm - m.ast_us) * tmpl.timescale // (tmpl.duration * 1_000_000)
-        want.append((code, x))
+        exact = Fraction((tm - m.ast_us) * tmpl.timescale, tmpl.duration * 1_000_000)
+        x = tmpl.start_number + int(exact)        # $Number$ n covers [(n - startNumber) d, (n - startNumber + 1) d)
+        on_edge = exact.denominator == 1          # the instant is a segment boundary: either neighbour may be meant
+        want.append((code, x, on_edge))
     got = args.get(name)
     sim.check("c07-error-time")
     pairs = []
     for item in (got or "").split(","):
         code, _, n = item.partition("=")
         pairs.append((code, int(n)) if n.isdigit() else (code, None))
-    ok = len(pairs) == len(want) and all(c == wc and n is not None and n - wx in (0, 1)
-                                         for (c, n), (wc, wx) in zip(pairs, want))
+    ok = len(pairs) == len(want) and all(c == wc and n is not None and (n == wx or (edge and n == wx - 1))
+                                         for (c, n), (wc, wx, edge) in zip(pairs, want))
     if not ok:
         sim.violate("error-time-segment", f"{name}/{ctype}",
                     f"{name}={mq[name]} requested; the {ctype} media URL carries {name}={got!r}, the segment of this "
-                    f"Representation at that time is {[w[1] for w in want]} (+1) with @duration={tmpl.duration}/"
+                    f"Representation that contains that time is {[w[1] for w in want]} with @duration={tmpl.duration}/"
                     f"{tmpl.timescale}; {doc.url[:200]}")
 
 
